@@ -154,6 +154,56 @@ service S { Rec f() }
 			cfgs: append(plain, Config{Methods: []string{"Svc.f"}}, Config{Methods: []string{"Svc.g"}}),
 		},
 		{
+			// a struct-only file (no constant, enum or typedef keeps its include) used from TWO kept files:
+			// every file that refers to it must keep its own include, not only the first that reaches it
+			name: "shared-struct-only-include",
+			files: map[string]string{
+				"main.thrift": `include "user.thrift"
+include "common.thrift"
+struct Req {1: common.Pagination p, 2: user.User u}
+service Api { user.UserList list(1: Req r) throws (1: common.Failure f) }
+`,
+				"user.thrift": `include "common.thrift"
+struct User {1: i32 id}
+struct UserList {1: list<User> users, 2: common.Pagination page, 3: map<string, common.Tag> tags, 4: optional common.Choice c}
+service Users { User get(1: i32 id) throws (1: common.Failure f) }
+`,
+				"common.thrift": "struct Pagination {1: i32 page}\nstruct Tag {1: string t}\nunion Choice {1: i32 a}\nexception Failure {1: string m}\nstruct Unused {1: i32 x}\n",
+			},
+			cfgs: append(plain, Config{Methods: []string{"Api.list"}}),
+		},
+		{
+			// the same through three levels, and with the typedef / container positions reached first by
+			// preProcess (the file with the typedef marks its include before the main file gets there)
+			name: "shared-struct-only-include-transitive",
+			files: map[string]string{
+				"main.thrift": `include "mid.thrift"
+include "leaf.thrift"
+include "common.thrift"
+struct Top {1: common.Base b, 2: leaf.Leaf l, 3: mid.Mid m}
+service S { Top get(1: mid.BaseList l, 2: set<i32> s) }
+`,
+				"mid.thrift": `include "leaf.thrift"
+include "common.thrift"
+typedef list<common.Base> BaseList
+struct Mid {1: leaf.Leaf l, 2: map<i32, common.Base> m}
+`,
+				"leaf.thrift":   "include \"common.thrift\"\nstruct Leaf {1: common.Base b, 2: list<list<common.Other>> o}\n",
+				"common.thrift": "struct Base {1: i32 x}\nstruct Other {1: i32 x}\nstruct Unused {1: i32 x}\n",
+			},
+			cfgs: append(plain, Config{PreserveStructs: []string{"Leaf"}}, Config{Methods: []string{"S.get"}}),
+		},
+		{
+			// shared struct-only include reached from a base service in another file and from a preserved struct
+			name: "shared-struct-only-include-base-service",
+			files: map[string]string{
+				"main.thrift":   "include \"base.thrift\"\ninclude \"common.thrift\"\nservice S extends base.Base { common.R f() }\n// @preserve\nstruct Keep {1: common.R r}\n",
+				"base.thrift":   "include \"common.thrift\"\nservice Base { common.R g(1: common.A a) }\n// @preserve\nstruct KeepToo {1: set<common.A> s}\n",
+				"common.thrift": "struct R {1: i32 x}\nstruct A {1: i32 x}\n",
+			},
+			cfgs: append(plain, Config{Methods: []string{"S.g"}}, Config{Methods: []string{"S.f", "S.g"}}),
+		},
+		{
 			// a main file without services; services only in includes
 			name: "no-main-service",
 			files: map[string]string{
